@@ -49,12 +49,12 @@ def deps_table(cargo_toml: str) -> str:
 
 
 FILE_GROUP = {"c_uci.rs": "uci", "c_move.rs": "move", "c_piece.rs": "piece", "c_position.rs": "position", "c_gamestate.rs": "gamestate",
-              "c_chess.rs": "core", "c_moves.rs": "moves", "instances.rs": "moves", "c_fen.rs": "fen"}
+              "c_search.rs": "search", "c_chess.rs": "core", "c_moves.rs": "moves", "instances.rs": "moves", "c_fen.rs": "fen"}
 ALL_GROUPS = sorted(set(FILE_GROUP.values()) | {"rt"})
 
 
 def group_of(harness: str) -> str:
-    for prefix, g in [("uci::verif_uci::", "uci"), ("chess::move_struct::verif_move::", "move"), ("chess::piece::verif_piece::", "piece"),
+    for prefix, g in [("uci::verif_uci::", "uci"), ("search::verif_search::", "search"), ("chess::move_struct::verif_move::", "move"), ("chess::piece::verif_piece::", "piece"),
                       ("chess::position::verif_position::", "position"), ("chess::gamestate::verif_gamestate::", "gamestate"),
                       ("chess::verif_chess::inst::", "moves"), ("chess::verif_chess::moves::", "moves"), ("chess::verif_chess::fen::", "fen"),
                       ("chess::verif_chess::roundtrip_", "rt"), ("chess::verif_chess::", "core")]:
